@@ -575,6 +575,120 @@ Proof.
 Qed.
 
 (* ------------------------------------------------------------------ *)
+(* the in-order part of the executable property                        *)
+(* ------------------------------------------------------------------ *)
+Lemma result_eqb_eq a b : result_eqb a b = true <-> a = b.
+Proof. destruct a, b; cbn; split; intro H; congruence. Qed.
+
+Lemma verdict_before_iff r p hist :
+  verdict_before r p hist = true <-> exists e, In e hist /\ ob_peer e = p /\ ob_result e = r.
+Proof.
+  unfold verdict_before. rewrite existsb_exists. split.
+  - intros [e [He E]]. apply andb_true_iff in E. destruct E as [E1 E2].
+    apply N.eqb_eq in E1. apply result_eqb_eq in E2. exists e. auto.
+  - intros [e [He [E1 E2]]]. exists e. split; [exact He|].
+    apply andb_true_iff. split; [apply N.eqb_eq; exact E1|apply result_eqb_eq; exact E2].
+Qed.
+
+Lemma verdict_before_cons r p o hist :
+  verdict_before r p hist = true -> verdict_before r p (o :: hist) = true.
+Proof. unfold verdict_before. cbn [existsb]. intros ->. apply orb_true_r. Qed.
+
+Lemma verdict_before_here r p o hist :
+  ob_peer o = p -> ob_result o = r -> verdict_before r p (o :: hist) = true.
+Proof.
+  unfold verdict_before. cbn [existsb]. intros <- <-.
+  rewrite N.eqb_refl, (proj2 (result_eqb_eq _ _) eq_refl). reflexivity.
+Qed.
+
+Lemma scan_yes_iff a : fst (scan a) = SYes <-> first_is Yes a.
+Proof.
+  split.
+  - destruct (scan a) as [r k] eqn:E. cbn [fst]. intros ->. exact (scan_yes a k E).
+  - intros H. destruct (first_is_yes_scan a H) as [k ->]. reflexivity.
+Qed.
+
+Lemma order_ok_sound allow hist o : order_ok allow hist o = true -> order_prop allow hist o.
+Proof.
+  unfold order_ok, order_prop. cbn zeta.
+  destruct (memN (ob_peer o) allow) eqn:Ea.
+  - apply memN_In in Ea. intro H. apply result_eqb_eq in H.
+    split; [intros _; exact H|]. split; intros C; contradiction.
+  - apply memN_false in Ea. intro H. split; [intro C; contradiction|].
+    split; intros _ Hf.
+    + apply scan_yes_iff in Hf. rewrite Hf in H. apply orb_true_iff in H. destruct H as [H|H].
+      * left. apply result_eqb_eq. exact H.
+      * right. apply verdict_before_iff. exact H.
+    + assert (Hn : fst (scan (ob_answers o)) <> SYes) by (intro C; apply Hf, scan_yes_iff, C).
+      destruct (fst (scan (ob_answers o))); [congruence| |];
+      (apply orb_true_iff in H; destruct H as [H|H];
+       [left; apply negb_true_iff in H; intro C; apply result_eqb_eq in C; congruence
+       |right; apply verdict_before_iff; exact H]).
+Qed.
+
+Lemma order_prop_hist_ext allow h1 h2 o :
+  (forall e, In e h1 -> In e h2) -> order_prop allow h1 o -> order_prop allow h2 o.
+Proof.
+  intros Hsub [P1 [P2 P3]]. split; [exact P1|]. split.
+  - intros Ha Hf. destruct (P2 Ha Hf) as [H|[e [He R]]]; [left; exact H|].
+    right. exists e. split; [apply Hsub; exact He|exact R].
+  - intros Ha Hf. destruct (P3 Ha Hf) as [H|[e [He R]]]; [left; exact H|].
+    right. exists e. split; [apply Hsub; exact He|exact R].
+Qed.
+
+Lemma order_from_sound allow rest : forall hist,
+  order_from allow hist rest = true ->
+  forall pre o post, rest = pre ++ o :: post -> order_prop allow (rev pre ++ hist) o.
+Proof.
+  induction rest as [|x rest IH]; intros hist H pre o post E.
+  - destruct pre; discriminate.
+  - cbn [order_from] in H. apply andb_true_iff in H. destruct H as [H1 H2].
+    destruct pre as [|y pre]; cbn [app] in E; injection E as -> ->.
+    + cbn [rev app]. apply order_ok_sound. exact H1.
+    + specialize (IH (y :: hist) H2 pre o post eq_refl).
+      cbn [rev]. rewrite <- app_assoc. exact IH.
+Qed.
+
+(* the model's own trace satisfies it: cache entries stem from earlier verdicts *)
+Lemma model_trace_order allow steps : forall st hist,
+  (forall q, In q (pos st) -> verdict_before Admit q hist = true) ->
+  (forall q, In q (neg st) -> verdict_before NotRecognized q hist = true) ->
+  order_from allow hist (model_trace allow st steps) = true.
+Proof.
+  induction steps as [|[p a] steps IH]; intros st hist Ipos Ineg; [reflexivity|].
+  cbn [model_trace order_from].
+  set (o := validate allow st p a).
+  set (ob := {| ob_peer := p; ob_answers := a; ob_result := o_result o;
+                ob_calls := map N.of_nat (seq 0 (o_calls o)) |}).
+  assert (order_ok allow hist ob = true /\
+          (forall q, In q (pos (o_after o)) -> verdict_before Admit q (ob :: hist) = true) /\
+          (forall q, In q (neg (o_after o)) -> verdict_before NotRecognized q (ob :: hist) = true))
+    as [Hok [Ipos' Ineg']].
+  { subst ob o. unfold order_ok. cbn [ob_peer ob_answers ob_result].
+    vcases allow st p a Ea Ep En Es; cbn [o_result o_calls o_after pos neg].
+    - split; [reflexivity|].
+      split; intros q Hq; apply verdict_before_cons; auto.
+    - split; [destruct (fst (scan a)); cbn [result_eqb negb orb]; try reflexivity; apply Ipos, Ep|].
+      split; intros q Hq; apply verdict_before_cons; auto.
+    - split; [destruct (fst (scan a)); cbn [result_eqb negb orb]; try reflexivity; apply Ineg, En|].
+      split; intros q Hq; apply verdict_before_cons; auto.
+    - cbn [fst result_eqb orb].
+      split; [reflexivity|]. split; intros q Hq.
+      + destruct Hq as [<-|Hq]; [|apply verdict_before_cons; auto].
+        apply verdict_before_here; reflexivity.
+      + apply verdict_before_cons; auto.
+    - cbn [fst result_eqb negb orb].
+      split; [reflexivity|]. split; intros q Hq.
+      + apply verdict_before_cons; auto.
+      + destruct Hq as [<-|Hq]; [|apply verdict_before_cons; auto].
+        apply verdict_before_here; reflexivity.
+    - cbn [fst result_eqb negb orb].
+      split; [reflexivity|].
+      split; intros q Hq; apply verdict_before_cons; auto. }
+  rewrite Hok. cbn [andb]. apply IH; assumption.
+Qed.
+
+(* ------------------------------------------------------------------ *)
 (* theorems restated in Props/C21.v                                    *)
 (* ------------------------------------------------------------------ *)
 Theorem admit_sound : forall allow pre p a,
@@ -735,9 +849,74 @@ Theorem spec_ok_sound : forall allow napps l,
   forall pre o post, l = pre ++ o :: post -> step_prop allow napps pre o.
 Proof.
   intros allow napps l H pre o post E.
+  unfold spec_ok in H. apply andb_true_iff in H. destruct H as [H _].
   pose proof (spec_from_sound allow napps l [] H pre o post E) as P.
   refine (step_prop_hist_ext allow napps _ _ o _ P).
   intros e He. rewrite app_nil_r in He. apply in_rev. exact He.
+Qed.
+
+Theorem spec_ok_order_sound : forall allow napps l,
+  spec_ok allow napps l = true ->
+  forall pre o post, l = pre ++ o :: post -> order_prop allow pre o.
+Proof.
+  intros allow napps l H pre o post E.
+  unfold spec_ok in H. apply andb_true_iff in H. destruct H as [_ H].
+  pose proof (order_from_sound allow l [] H pre o post E) as P.
+  refine (order_prop_hist_ext allow _ _ o _ P).
+  intros e He. rewrite app_nil_r in He. apply in_rev. exact He.
+Qed.
+
+Lemma first_is_yes_dec a : first_is Yes a \/ ~ first_is Yes a.
+Proof.
+  destruct (first_non_no a) as [H|[H|H]]; [right|left; exact H|right]; intro C.
+  - refine (first_is_not_all_no Yes a _ C H). congruence.
+  - exact (first_is_excl a C H).
+Qed.
+
+(* first validation of a peer that is not allowlisted: admitted iff the first answer, in
+   application order, that is not No is a Yes *)
+Theorem spec_ok_first_visit : forall allow napps l,
+  spec_ok allow napps l = true ->
+  forall pre o post, l = pre ++ o :: post ->
+    ~ In (ob_peer o) allow -> (forall e, In e pre -> ob_peer e <> ob_peer o) ->
+    (ob_result o = Admit <-> first_is Yes (ob_answers o)).
+Proof.
+  intros allow napps l H pre o post E Ha Hfresh.
+  destruct (spec_ok_order_sound allow napps l H pre o post E) as [_ [P2 P3]].
+  split.
+  - intro Hr. destruct (first_is_yes_dec (ob_answers o)) as [Hf|Hf]; [exact Hf|].
+    destruct (P3 Ha Hf) as [C|[e [He [Ep _]]]]; [congruence|]. exfalso. exact (Hfresh e He Ep).
+  - intro Hf. destruct (P2 Ha Hf) as [C|[e [He [Ep _]]]]; [exact C|]. exfalso. exact (Hfresh e He Ep).
+Qed.
+
+(* every admission of a peer that is not allowlisted goes back to a validation of the SAME peer
+   (this one or an earlier one) that was admitted with a Yes before any Err in order *)
+Theorem spec_ok_admit_justified : forall allow napps l,
+  spec_ok allow napps l = true ->
+  forall pre o post, l = pre ++ o :: post -> ob_result o = Admit ->
+    In (ob_peer o) allow \/
+    exists e, In e (pre ++ [o]) /\ ob_peer e = ob_peer o /\ ob_result e = Admit
+              /\ first_is Yes (ob_answers e).
+Proof.
+  intros allow napps l H pre. remember (length pre) as n eqn:En.
+  revert pre En. induction n as [n IH] using lt_wf_ind. intros pre En o post E Hr.
+  destruct (spec_ok_order_sound allow napps l H pre o post E) as [_ [_ P3]].
+  destruct (memN (ob_peer o) allow) eqn:Ea; [left; apply memN_In; exact Ea|].
+  apply memN_false in Ea. right.
+  destruct (first_is_yes_dec (ob_answers o)) as [Hf|Hf].
+  - exists o. split; [apply in_or_app; right; left; reflexivity|]. auto.
+  - destruct (P3 Ea Hf) as [C|[e [He [Ep Er]]]]; [congruence|].
+    destruct (in_split e pre He) as [pre1 [pre2 Epre]].
+    assert (El : l = pre1 ++ e :: (pre2 ++ o :: post)).
+    { rewrite E, Epre, <- app_assoc. reflexivity. }
+    assert (Hlt : (length pre1 < n)%nat).
+    { rewrite En, Epre, app_length. cbn [length]. lia. }
+    destruct (IH (length pre1) Hlt pre1 eq_refl e _ El Er) as [Hal|[e' [He' [Ep' R]]]].
+    + exfalso. apply Ea. rewrite <- Ep. exact Hal.
+    + exists e'. split.
+      * rewrite Epre. apply in_app_or in He'. apply in_or_app. left. apply in_or_app.
+        destruct He' as [He'|[<-|[]]]; [left; exact He'|right; left; reflexivity].
+      * split; [congruence|exact R].
 Qed.
 
 Theorem model_passes_spec : forall allow napps steps,
@@ -747,7 +926,9 @@ Theorem model_passes_spec : forall allow napps steps,
 Proof.
   intros allow napps steps H.
   assert (S1 : spec_ok allow napps (model_trace allow empty steps) = true).
-  { apply model_trace_spec; [intros q []|intros q []|exact H]. }
+  { unfold spec_ok. apply andb_true_iff. split.
+    - apply model_trace_spec; [intros q []|intros q []|exact H].
+    - apply model_trace_order; intros q []. }
   split; [exact S1|].
   unfold judge, well_formed. cbn [c_allow c_napps c_obs].
   rewrite (model_trace_wf allow napps steps empty H). cbn [negb].
@@ -761,3 +942,15 @@ Example error_then_yes_then_cached :
       (run [] empty [(1%N, [Err; No]); (1%N, [No; Yes]); (1%N, [No; No])])
   = [(Failed, [0%N]); (Admit, [0%N; 1%N]); (Admit, [])].
 Proof. reflexivity. Qed.
+
+(* a Yes followed by an Err in the same call: the loop stops at the Yes (one application is
+   consulted), the peer is admitted and positively cached; a judged observation that rejects it
+   with the later error is refused by the executable property *)
+Example yes_then_error_admits :
+  map (fun m => model_obs (snd m)) (run [] empty [(1%N, [Yes; Err]); (1%N, [Err; Err])])
+  = [(Admit, [0%N]); (Admit, [])]
+  /\ spec_ok [] 2 [{| ob_peer := 1; ob_answers := [Yes; Err]; ob_result := Failed;
+                      ob_calls := [0%N; 1%N] |}] = false
+  /\ spec_ok [] 2 [{| ob_peer := 1; ob_answers := [Yes; Err]; ob_result := Admit;
+                      ob_calls := [0%N] |}] = true.
+Proof. repeat split; reflexivity. Qed.
